@@ -434,7 +434,7 @@ def state_unsubscribe_table(ctx, program, rid):
     import itertools
     from ..absint import ClassV, DictV
     add_uid, del_uid = "state.py::State.notify_add", "state.py::State.notify_del"
-    names = ("d.a", "d.a.old", "d.b", "d.b.attr", "plain", "d.c.old.attr")  # (a four-part name: subscribed or not, add and del must agree)
+    names = ("d.a", "d.a.old", "d.b", "d.b.attr", "plain", "d.c.old.attr")  # (`d.c.old.attr`: an attribute of d.c's previous value - the entity is mentioned, so it is watched)
     n = 0
     for order in itertools.permutations(names):
         if order.index("d.a") > order.index("d.a.old") and order.index("d.b") > order.index("d.b.attr") and order[0] == "plain":
@@ -456,8 +456,8 @@ def state_unsubscribe_table(ctx, program, rid):
                 continue
             tab = c.heap.get("State.notify")
             subscribed = sorted(e.v for e, qs in tab.items if isinstance(qs, DictV) and qs.get(q) is not None) if isinstance(tab, DictV) else None
-            if subscribed != ["d.a", "d.b"]:
-                bad = f"notify_add subscribes the queue to {subscribed}, the names mention the entities ['d.a', 'd.b']"
+            if subscribed != ["d.a", "d.b", "d.c"]:
+                bad = f"notify_add subscribes the queue to {subscribed}, the names mention the entities ['d.a', 'd.b', 'd.c']"
                 continue
             o2 = run_flow(program, del_uid, pol, args={"cls": ClassV("State"), "var_names": var_names, "queue": q}, heap=dict(c.heap))
             for k2, c2, d2 in exits(o2):
